@@ -538,7 +538,72 @@ def run_register_unit(ctx, rep):
                 return
 
 
+def implicit_default_case(ctx, seed):
+    """a parameter the model reads but does not declare (its own implicit default, like CWA's wl or the keyword defaults of a user
+    index function): one model object placed twice, one placement renaming that parameter; each instance must use the value given
+    under the name by which the parameter is visible for *it*, else the model's own implicit default - whatever the other
+    placement and earlier solves were given"""
+    import random as _random
+    L = impl.lk()
+    rng = _random.Random(f"c05-implicit-{seed}")
+    z0 = rng.choice([0.125, -0.25, 0.375])
+
+    class Implicit(L.Model):
+        def __init__(self):
+            self.pin_dic = {L.Pin("a0"): 0, L.Pin("b0"): 1}
+            self.N = 2
+            self.param_dic = {"A": 0.0625}
+            self.default_params = {"A": 0.0625}
+            self.S = np.zeros((2, 2), complex)
+            self.update_pins()
+
+        def create_S(self):
+            ph = np.exp(1j * np.pi * (self.param_dic["A"] + self.param_dic.get("Z", z0)))
+            S = np.zeros((2, 2), complex)
+            S[0, 1] = S[1, 0] = ph
+            return S
+    m = Implicit()
+    sol = L.Solver()
+    with sol:
+        st1 = m.put()
+        st2 = m.put(param_mapping={"Z": "Zr"})
+        L.putpin("i1", st1.pin["a0"]); L.putpin("o1", st1.pin["b0"])
+        L.putpin("i2", st2.pin["a0"]); L.putpin("o2", st2.pin["b0"])
+    rep = {"kind": "implicit-default", "seed": seed}
+    ctx.case(rep, tags=["stream:implicit-default"])
+    calls = []
+    for _ in range(5):
+        kw = {}
+        if rng.random() < 0.5:
+            kw["Z"] = rng.choice([0.5, -0.75, 0.3125])
+        if rng.random() < 0.5:
+            kw["Zr"] = rng.choice([0.25, -0.5, 0.6875])
+        if rng.random() < 0.3:
+            kw["A"] = rng.choice([0.1875, -0.125])
+        calls.append(kw)
+    if rng.random() < 0.5:
+        m.solve(Z=0.9375)                    # an earlier stand-alone evaluation of the shared model object
+    try:
+        for kw in calls:
+            mod = sol.solve(**kw)
+            a = kw.get("A", 0.0625)
+            want1 = np.exp(1j * np.pi * (a + kw.get("Z", z0)))
+            want2 = np.exp(1j * np.pi * (a + kw.get("Zr", z0)))
+            g1, g2 = mod.get_A("i1", "o1"), mod.get_A("i2", "o2")
+            if abs(g1 - want1) > 1e-12 or abs(g2 - want2) > 1e-12:
+                which = "the unrenamed instance" if abs(g1 - want1) > 1e-12 else "the instance whose Z is renamed to Zr"
+                ctx.violation("C05:implicit-default", f"solve({kw}): {which} does not use (explicit value under its visible name, else the model's own implicit default "
+                              f"{z0}); earlier calls {calls[:calls.index(kw)]}", rep)
+                return False
+    except Exception as e:  # noqa
+        ctx.violation(f"C05:implicit-default-raised-{type(e).__name__}", f"{type(e).__name__}: {str(e)[:80]}", rep)
+        return False
+    return True
+
+
 def run(ctx):
+    for i in range(ctx.budget(30, 300)):
+        implicit_default_case(ctx, f"{ctx.seed}:{ctx.scale}:{i}")
     rng = ctx.subrng("c05")
     n = ctx.budget(400, 5000)
     for i in range(n):
@@ -580,6 +645,11 @@ def run(ctx):
 
 
 def replay(ctx, data):
+    if isinstance(data, dict) and data.get("kind") == "implicit-default":
+        implicit_default_case(ctx, data["seed"])
+        if ctx.violations:
+            return False, ctx.violations[0]["what"]
+        return True, "implicit defaults and renamed placements of one model object behave by the rules"
     if data["kind"] == "tree":
         check_tree(ctx, undescribe(data["tree"]), data["explicit"], data)
     elif data["kind"] == "add_param_sibling":
